@@ -152,7 +152,7 @@ func stage1Child(c *vkit.Ctx) {
 		}
 		w.ensureConns(st.nConn)
 		sc.ld = nil
-		runStream(c, sh, w, sc, st, idx == sh.from)
+		runStream(c, sh, w, sc, st, idx == sh.from && sh.id < 3)
 		if len(sc.m) > 4000 {
 			sc.m = map[string]result{}
 		}
@@ -169,7 +169,7 @@ func stage1Child(c *vkit.Ctx) {
 		sc.ld = nil
 		shs := sh
 		shs.persist, shs.route = false, "single"
-		runStream(c, shs, sw, sc, st, false)
+		runStream(c, shs, sw, sc, st, k == 0 && sh.id == 3)
 		sw.close()
 		c.Event("s1_layout_sweeps", 1)
 		if len(sc.m) > 4000 {
@@ -303,6 +303,12 @@ func runStream(c *vkit.Ctx, sh shard, w *world, sc *soloCache, st *stream, first
 			for k, x := range v.extra {
 				wit[k] = x
 			}
+			// the records handed to the pipeline just before: what the recycled struct / buffer held last
+			var prev []string
+			for q := pos - 1; q >= 0 && q >= pos-5; q-- {
+				prev = append(prev, clip(string(st.lines[obs[q].line].data), 90))
+			}
+			wit["preceding_records_newest_first"] = prev
 			if !minimised[v.fp] && len(minimised) < 6 {
 				minimised[v.fp] = true
 				if m := minimise(c, sh, st, pos, v.fp); m != nil {
@@ -326,7 +332,7 @@ func runStream(c *vkit.Ctx, sh shard, w *world, sc *soloCache, st *stream, first
 		c.Event("s1_streams_layout_families", 1)
 	}
 	if first {
-		c.Sample(map[string]any{"stage": 1, "variant": sh.variant, "route": sh.route, "msg_max": defs.InputLogMaxMessageBytes, "stream": st.idx,
+		c.Sample(map[string]any{"stage": 1, "layout_family_stream": st.family, "layout_sweep_on_own_world": st.sweep, "variant": sh.variant, "route": sh.route, "msg_max": defs.InputLogMaxMessageBytes, "stream": st.idx,
 			"records": len(st.seq), "distinct_lines": len(st.lines), "connections": st.nConn, "batch_max": st.batch,
 			"first_line": clip(string(st.lines[st.seq[0]].data), 200), "backbuf_reused_in_stream": reused, "max_unreleased_records": w.maxLive})
 	}
@@ -392,10 +398,13 @@ func compareResult(stage string, kinds []string, ls *lineSpec, got, want result)
 		if !same {
 			if ks := diffEvents(ge, se, nil); len(ks) > 0 {
 				cls := diffClass(ge, se, ks)
+				extra := map[string]any{"long": pickKeys(ge, ks), "solo": pickKeys(se, ks), "output_index": k}
+				if d, ok := timeDelta(ge["@time"], se["@time"]); ok && d != 0 {
+					extra["time_long_minus_solo_seconds"] = d
+				}
 				out = append(out, finding{fp: fmt.Sprintf("%s:differs:%s:%s", stage, kind, cls),
 					what:   fmt.Sprintf("output %d (%s): decoded event on the long-lived pipeline differs from the same line processed alone, in %s", k, kind, strings.Join(ks, ",")),
-					detail: fmt.Sprintf("keys that differ: %v", ks),
-					extra:  map[string]any{"long": pickKeys(ge, ks), "solo": pickKeys(se, ks), "output_index": k}})
+					detail: fmt.Sprintf("keys that differ: %v", ks), extra: extra})
 			}
 		}
 		if ks := poisonIn(kind, ge); len(ks) > 0 {
@@ -409,6 +418,18 @@ func compareResult(stage string, kinds []string, ls *lineSpec, got, want result)
 		}
 	}
 	return out
+}
+
+func timeDelta(a, b string) (float64, bool) {
+	x, err1 := strconv.ParseFloat(a, 64)
+	y, err2 := strconv.ParseFloat(b, 64)
+	if err1 != nil || err2 != nil {
+		return 0, false
+	}
+	if !strings.Contains(a, ".") { // Datadog: milliseconds
+		x, y = x/1000, y/1000
+	}
+	return x - y, true
 }
 
 func keyClass(k string) string {
